@@ -318,6 +318,73 @@ def h_robust_mut(eng, case):
     _robust(eng, case, case['front'], typ, pkt)
 
 
+def h_cancelled(eng, case):
+    """Data that arrives while one of the Interests waiting for it has just been cancelled (its waiter has not run yet):
+    reception returns normally and the other waiters still get the Data"""
+    import ndn.types as types
+    import ndn.encoding as enc
+    front = case['front']
+    app, face = appenv.make_app(front)
+    n = case['consumers']
+    res = [None] * n
+
+    async def pass_v2(name, sig, ctx):
+        return types.ValidResult.PASS
+
+    async def pass_v1(name, sig):
+        return True
+
+    async def consumer(i):
+        try:
+            if front == 'v2':
+                nm, c, ctx = await app.express('/a/b', pass_v2, lifetime=4000, nonce=9 + i)
+            else:
+                nm, m_, c = await app.express_interest('/a/b', validator=pass_v1, lifetime=4000, nonce=9 + i)
+            res[i] = ('data', bytes(c) if c is not None else None)
+        except BaseException as e:
+            if type(e).__name__ in ('PathAbort', 'HarnessError'):
+                raise
+            res[i] = (type(e).__name__,)
+    data = bytes(enc.make_data('/a/b', enc.MetaInfo(), b'ok'))
+    victim = eng.choice(n, 'cancelled')
+    second = eng.choice(n + 1, 'also-cancelled')          # n = nobody else
+
+    async def main(loop):
+        ts = [asyncio.ensure_future(consumer(i)) for i in range(n)]
+        await asyncio.sleep(0)
+        await vloop.sleep_until(loop, loop.at_ms(10))
+        ts[victim].cancel()
+        if second < n and second != victim:
+            ts[second].cancel()
+        try:
+            await app._receive(6, data)          # before the cancelled waiters get to run
+        except Exception as e:
+            eng.fail('receive-returns', exc_sig(e), repr(e)[:120])
+        for _ in range(6):
+            await asyncio.sleep(0)
+        await vloop.sleep_until(loop, loop.at_ms(5000))
+        for t in ts:
+            if not t.done():
+                t.cancel()
+        for _ in range(3):
+            await asyncio.sleep(0)
+    loop, r, err = appenv.run(eng, main)
+    if err == 'deadlock':
+        eng.fail('unrelated-state-unaffected', 'deadlock')
+        return
+    eng.check(True, 'receive-returns')
+    if loop.errors:
+        exc = loop.errors[0].get('exception')
+        eng.fail('no-unhandled-error-in-loop', exc_sig(exc) if exc is not None else str(loop.errors[0].get('message')))
+    for i in range(n):
+        if i == victim or i == second:
+            continue
+        eng.check(res[i] == ('data', b'ok'), 'unrelated-state-unaffected', {'consumer': i, 'outcome': repr(res[i])},
+                  sig='waiter-next-to-a-cancelled-one-not-served')
+    eng.observe('res', [repr(x) for x in res])
+    eng.reach('end')
+
+
 def h_fragment(eng, case):
     """an envelope with fragmentation headers (FragIndex >= 1, or FragCount >= 2), whatever complete packet its payload
     happens to decode as, is dropped"""
@@ -378,13 +445,16 @@ def h_udp(eng, case):
     eng.reach('end')
 
 
-HARNESSES = {'fragment': h_fragment, 'frame_sym': h_frame_sym, 'frame_cuts': h_frame_cuts, 'robust_sym': h_robust_sym,
+HARNESSES = {'cancelled': h_cancelled, 'fragment': h_fragment, 'frame_sym': h_frame_sym, 'frame_cuts': h_frame_cuts, 'robust_sym': h_robust_sym,
              'robust_mut': h_robust_mut, 'udp': h_udp}
 
 
 def cases(tier, seed):
     quick = tier == 'quick'
     cs = []
+    for front in ('v2', 'v1'):
+        for n in (1, 2, 3):
+            cs.append(('cancelled', {'front': front, 'consumers': n}, {'weight': 3}))
     for front in ('v2', 'v1'):
         for payload in ('data', 'interest'):
             for hs in ('index', 'index+count', 'count'):
